@@ -294,6 +294,9 @@ def cmp_netconn(prop, case, impl, model):
             if impl.get(f) != model.get(f):
                 out.append(('violation', 'netconn:%s:%s' % (k, f), '%s: library %s, specification %s' % (f, impl.get(f), model.get(f))))
                 break
+    if impl.get('ghost', '0:0') != '0:0':
+        g = impl['ghost'].split(':')
+        out.append(('violation', 'netconn:bytes-with-error', 'failing calls of the adapter reported %s bytes read and %s bytes written although nothing was transferred by them' % (g[0], g[1])))
     return out
 
 def cmp_wsjson(prop, case, impl, model):
@@ -393,15 +396,42 @@ def cmp_pools(prop, case, impl, model):
         if len(f) == 4 and f[2] == 'false':
             out.append(('violation', 'pools:foreign-bytes', 'read %d on connection %s returned %s bytes that are not bytes of that connection' % (k, f[0], f[1])))
             break
-        if len(f) == 4 and f[3] == 'eof' and False:
-            pass
+        if len(f) == 4 and f[1] == 'probe' and f[2] != '0':
+            out.append(('violation', 'pools:foreign-bytes-probe', 'the first compressed message of connection %s, a back-reference to before its own start, was inflated to %s bytes: none of them was sent on that connection' % (f[0], f[2])))
+            break
+        if len(f) == 3 and f[1] == 'write-misrouted':
+            out.append(('violation', 'pools:write-misrouted', 'a message written on connection %s went to the transport of connection %s (or to none)' % (f[0], f[2])))
+            break
+        if len(f) == 3 and f[1] == 'unexpected-error':
+            out.append(('disagree', 'pools:healthy-connection-failed', '%s on connection %s failed although nothing was wrong on that connection' % (f[2], f[0])))
+            break
     if model.get('replay') != 'ok':
         r = model.get('replay', '?')
         kind = 'violation' if ('not-held' in r or 'somebody-holds' in r or 'non-holder' in r) else 'disagree'
         out.append((kind, 'pools:' + re.sub(r'\d+', 'N', r), 'pool trace replayed in the ownership model: ' + r))
     return out
 
+def cmp_window(prop, case, impl, model):
+    if 'PANIC' in impl:
+        return [('violation', 'window:panic', impl['PANIC'][:300])]
+    if 'modelerror' in model:
+        return [('disagree', 'window:setup', str(model.get('modelerror'))[:300])]
+    io, mo = (impl.get('obs') or '').split(','), (model.get('obs') or '').split(',')
+    ops = case.get('hist', '').split('|')
+    for k in range(max(len(io), len(mo))):
+        a = io[k] if k < len(io) else '-'
+        b = mo[k] if k < len(mo) else '-'
+        fa, fb = a.split(':'), b.split(':')
+        if a == b or (len(fa) == 5 and len(fb) == 4 and fa[:3] == fb[:3] and (fa[4] == 'd' or fa[3] == fb[3])):   # flags: z new array, k known contents, d unknown contents
+            continue   # an array that came out of the pool with unknown contents of an earlier case (d): only what it shows is compared
+        op = ops[k] if k < len(ops) else '?'
+        if len(fa) == 5 and len(fb) == 4 and fa[1:3] != fb[1:3]:
+            return [('violation', 'window:dictionary-differs', 'after op %d (%s) the dictionary the connection would hand to its inflater has %s bytes (digest %s); its own last bytes are %s (digest %s)' % (k, op, fa[1], fa[2], fb[1], fb[2]))]
+        return [('disagree', 'window:array-differs', 'after op %d (%s): library %s, model %s' % (k, op, a, b))]
+    return []
+
 COMPARE = {
+    'window': cmp_window,
     'pools': cmp_pools,
     'life': cmp_life,
     'ping': cmp_ping,
@@ -429,6 +459,8 @@ def nontrivial(suite, case, impl):
         return True
     if suite == 'pools':
         return case.get('hist', '').count('msg:') >= 2
+    if suite == 'window':
+        return 'put:' in case.get('hist', '') and case.get('hist', '').count('w:') >= 2
     if suite == 'netconn':
         return case.get('kind') != 'stream' or ',' in case.get('writes', '')
     if suite == 'wire-out':
@@ -505,20 +537,24 @@ PROPS = {
         technique='Coq proofs (induction over chunk lists / buffer loop) + differential run of extracted Writer∘Reader vs two library endpoints',
     ),
     'C07': dict(
-        suites=['pools'],
-        rule='pools suite: sequential histories over 2-3 server connections sharing the library\'s pools under GOMAXPROCS(1) (sync.Pool then hands a returned object straight to the next Get): open (takeover / no takeover), '
+        suites=['pools', 'window'],
+        rule='window suite: the pooled sliding windows of compress.go driven directly (verif-tagged export: a new slidingWindow per incarnation, init, write, close) by 2-3 connections of one process under GOMAXPROCS(1), '
+             'capacities 4 / 8 / 16 / 64 / 32768, write sizes around 0, cap/2, cap-1, cap, cap+1, 2*cap+3; after every operation the dictionary (what the inflater would be given) and the whole backing array are compared with '
+             'Model/WinPool.v, which replays the pool\'s observed choice of array. pools suite: sequential histories over 2-3 connections (server and client role) sharing the library\'s pools under GOMAXPROCS(1) (sync.Pool then hands a returned object straight to the next Get): open (takeover / no takeover), '
              'compressed and plain messages of 40..40000 bytes tagged with their connection, partial reads, read to the end, reading AGAIN after the end, abandoning a message, a Close frame after the first '
-             'fragment of a compressed message, CloseNow and a read on the abandoned reader afterwards; compressed messages WRITTEN by the library (Write, two in a row, a streamed message left unfinished, CloseNow under it, a new connection afterwards); plus the historical witnesses. The pool hooks record Get / Put / Use of every flate reader and flate writer per connection. '
+             'fragment of a compressed message, CloseNow and a read on the abandoned reader afterwards; compressed messages WRITTEN by the library (Write, two in a row, a streamed message left unfinished, CloseNow under it, a new connection afterwards, a Write whose last frame fails because the transport went away); a PROBE as the first compressed message of a new connection — a hand-made DEFLATE block whose only token refers 1 or 32768 bytes back, before the first byte of the connection itself: nothing may be inflated from it; every finished Write must have reached the transport of its own connection and no other; plus the historical witnesses. The pool hooks record Get / Put / Use of every flate reader and flate writer per connection. '
              'Judge: every byte returned by a read carries its own connection\'s tag. Tie: the observed Get/Put/Use events drive Model/Pools.v (a Get of a held object, a Put by a non-holder or a Use of an object not held '
              'is a violation). non-trivial = histories with >= 2 messages; distinct = distinct case line',
         trusted=COMMON_TRUSTED + ['Model/Pools.v abstracts data to object ownership (which connection holds which pooled flate reader and what its limitReader points to); flate/bufio objects deliver bytes of the source they were last Reset onto (assumed)',
-                                  'the flate reader and flate writer pools are hooked (the write side of a connection is a holder of its own in the replay); bufio readers/writers, sliding windows and the wsjson buffer pool are covered by the byte-tag judge and the round-trip suites only'],
+                                  'the flate reader and flate writer pools are hooked (the write side of a connection is a holder of its own in the replay); sliding windows are modelled with their backing arrays (Model/WinPool.v) and compared directly through the verif-tagged export VerifWindow; bufio readers/writers and the wsjson buffer pool are covered by the byte-tag judge, the write-routing check and the round-trip suites only'],
         assumptions=['sync.Pool returns a pooled object or none (any choice); GOMAXPROCS(1) makes reuse reproducible in the suite'],
         not_covered=['concurrent (multi-goroutine) interleavings of pool use across connections: sequential histories only; race detector in the thorough tier of C05'],
         level_text='Theorem pools_isolated: for every history of any number of connections (read again after end of message, abandon, close at any moment incl. from underneath a Read, reuse by new connections) every use of a pooled '
-                   'flate object happens while the using connection — and no other — holds it, and it is not in the pool. Tie: hook-recorded Get/Put/Use events replayed in the model; judge: no foreign byte in any read.',
-        level_note='ownership model replayed for the flate reader and the flate writer pools; other pools by the judge only.',
-        technique='Coq proof (6-part ownership invariant over arbitrary histories) + replay of hook-recorded pool events + connection-tagged payloads',
+                   'flate object happens while the using connection — and no other — holds it, and it is not in the pool. Tie: hook-recorded Get/Put/Use events replayed in the model; judge: no foreign byte in any read. '
+                   'Theorems win_dict_own_bytes / win_noninterference (Model/WinPool.v, arrays with their stale contents): for every history of any number of connections taking, filling and returning pooled sliding windows, with the pool handing out '
+                   'any array it has or none, the dictionary a connection gives its inflater is the last cap bytes that connection ITSELF wrote since it took the window — a function of its own operations alone — although the array still holds the previous holder\'s bytes.',
+        level_note='ownership model replayed for the flate reader and the flate writer pools; sliding windows compared array by array; other pools by the judge only.',
+        technique='Coq proof (ownership invariant over arbitrary histories; sliding-window pool with backing arrays: own-bytes and non-interference theorems) + replay of hook-recorded pool events + direct differential run of the sliding windows + connection-tagged payloads and out-of-window probes',
     ),
     'C11': dict(
         suites=['hs-accept'],
